@@ -181,11 +181,13 @@ def uninstall_clock():
 # ---------------------------------------------------------------------------
 # asynchronous KeyboardInterrupt at the j-th traced line event
 # ---------------------------------------------------------------------------
-TRACED = (REPO + 'simulation/', REPO + 'utils.py')
+# every Python line of the package under test is a point where Ctrl-C can
+# arrive (code classes' lazy builders, decoders, noise models included)
+TRACED = (REPO,)
 
 
 def _traced_file(fn):
-    return fn.startswith(TRACED[0]) or fn == TRACED[1]
+    return fn.startswith(TRACED[0])
 
 
 class LineTracer:
